@@ -106,7 +106,9 @@ def monitor(cfg, events, trace, obs):
                 # ---- C13_shutdown_commits: success with a group => last committed == last processed
                 if o[1] == 1 and cfg.group and not (o[2] == L.NONE or o[3] == o[2]):
                     bad.append(("C13_shutdown_commits", i, "shutdown succeeded with last_processed %d but last_committed %d" % (o[2], o[3])))
-                if o[1] == 1 and ends[i][0] != o[2]:
+                if o[1] == 1 and ends[i][0] != o[2] and not inside:
+                    # (a shutdown() made by the processor completes before the processor returns: the block being
+                    #  processed is recorded as processed afterwards, as for stop() inside the processor)
                     bad.append(("C13_shutdown_commits", i, "shutdown Deferred value %d is not last_processed_offset %d" % (o[2], ends[i][0])))
                 # success or failure: the consumer has been stopped (an interruption by stop() is reported from inside that stop())
                 interrupted = o[1] == 0 and o[2] == L.FK_CANCELLED
@@ -170,6 +172,8 @@ def preambles(rnd):
         ("commit-waiters", dict(group=1, acn=0, acs=1), [(L.EV_START, 0), (L.EV_PLAN, 0, 0), (L.EV_PLAN, 0, 0), (L.EV_FETCH_OK, [0], 0), (L.EV_COMMIT,),
                                                      (L.EV_FIRE_RETRY,), (L.EV_FETCH_OK, [1], 0), (L.EV_COMMIT,), (L.EV_TICK,)]),
         ("inside-processor-stop", dict(group=1, acn=1), [(L.EV_START, 0), (L.EV_PLAN, 1, rnd.choice([0, 1, 2])), (L.EV_FETCH_OK, [0, 1], 0)]),
+        ("inside-processor-shutdown", dict(group=1, acn=rnd.choice([0, 1])), [(L.EV_START, 0), (L.EV_PLAN, 0, 0), (L.EV_FETCH_OK, [0], 0), (L.EV_FIRE_RETRY,),
+                                                                        (L.EV_PLAN, 3, rnd.choice([0, 1, 2])), (L.EV_FETCH_OK, [1, 2], 0)]),
         ("inside-processor-commit", dict(group=1, acn=0), [(L.EV_START, 0), (L.EV_PLAN, 0, 0), (L.EV_FETCH_OK, [0], 0), (L.EV_FIRE_RETRY,),
                                                         (L.EV_PLAN, 2, rnd.choice([0, 2])), (L.EV_FETCH_OK, [1, 2], 0)]),
         ("start-deferred-already-failed", dict(group=1), [(L.EV_START, 0), (L.EV_PLAN, 0, 1), (L.EV_FETCH_OK, [0], 0)]),
@@ -224,6 +228,12 @@ CORPUS = [
     ("F-C13-4", dict(group=1, acn=1), [(L.EV_START, 0), (L.EV_PLAN, 0, 0), (L.EV_FETCH_OK, [0], 0), (L.EV_STOP,)]),
     # F-C03-2 (fixed 6a022ff): stop with an asynchronous processor result pending and more blocks queued
     ("F-C03-2", dict(group=1, acn=1), [(L.EV_START, 0), (L.EV_FETCH_OK, [0, 1, 2], 0), (L.EV_STOP,)]),
+    # F-C13-6 (fixed 7687afc): shutdown() from inside the processor while a block is being processed
+    ("F-C13-6", dict(group=1, acn=0), [(L.EV_START, 0), (L.EV_PLAN, 0, 0), (L.EV_FETCH_OK, [0, 1], 0), (L.EV_FIRE_RETRY,), (L.EV_PLAN, 3, 0),
+                                      (L.EV_FETCH_OK, [2, 3], 0), (L.EV_COMMIT_OK,), (L.EV_COMMIT_OK,)]),
+    ("shutdown-in-processor-pending", dict(group=1, acn=1), [(L.EV_START, 0), (L.EV_PLAN, 3, 2), (L.EV_FETCH_OK, [0, 1], 0), (L.EV_PROC_FIRE, 1),
+                                                            (L.EV_COMMIT_OK,), (L.EV_COMMIT_OK,)]),
+    ("shutdown-in-processor-no-group", dict(group=0), [(L.EV_START, 0), (L.EV_PLAN, 3, 0), (L.EV_FETCH_OK, [0, 1], 0), (L.EV_START, 2)]),
     # graceful shutdown: waits for the processor, commits, stops
     ("shutdown-ok", dict(group=1, acn=0), [(L.EV_START, 0), (L.EV_FETCH_OK, [0, 1], 0), (L.EV_SHUTDOWN,), (L.EV_PROC_FIRE, 1), (L.EV_COMMIT_OK,),
                                           (L.EV_START, 2)]),
@@ -251,7 +261,7 @@ def small_alphabet(drv):
     last = [a for (_, what, a) in drv.sent if what == "fetch"]
     base = last[-1][0] if last else 0
     al = [(L.EV_START, 0), (L.EV_STOP,), (L.EV_SHUTDOWN,), (L.EV_COMMIT,), (L.EV_REQ_FAIL, L.FK_KAFKA),
-          (L.EV_FETCH_OK, [base, base + 1], 0), (L.EV_PLAN, 0, 0), (L.EV_PLAN, 1, 0), (L.EV_PROC_FIRE, 1), (L.EV_PROC_FIRE, 0),
+          (L.EV_FETCH_OK, [base, base + 1], 0), (L.EV_PLAN, 0, 0), (L.EV_PLAN, 1, 0), (L.EV_PLAN, 3, 0), (L.EV_PROC_FIRE, 1), (L.EV_PROC_FIRE, 0),
           (L.EV_COMMIT_OK,), (L.EV_COMMIT_FAIL, L.FK_KAFKA), (L.EV_FIRE_RETRY,), (L.EV_FIRE_COMMIT_RETRY,), (L.EV_TICK,)]
     return [e for e in al if drv.enabled(e)]
 
